@@ -2,10 +2,385 @@
 
 package verifharness
 
-// auction / liquidation flows of both generations that touch the collector (stage 3)
+// C13: auction / liquidation flows of both generations that touch the collector, driven on the
+// real keepers: generation-1 SurplusActivator / DebtActivator (start, restart, close with and
+// without bids, under ESM), bids, generation-2 CheckStatsForSurplusAndDebt, english bids,
+// CloseEnglishAuction (surplus and debt initiators), generation-2 vault liquidation with a full
+// dutch bid (liquidation penalty), and a plain fee inflow (coins + UpdateCollector, as the vault
+// handlers do) that lets net fees reach the auction thresholds.
 
-func (w *c13World) c13AucInit() {}
+import (
+	"fmt"
+	"time"
+
+	sdk "github.com/cosmos/cosmos-sdk/types"
+
+	auctiontypes "github.com/comdex-official/comdex/x/auction/types"
+	auctionsV2types "github.com/comdex-official/comdex/x/auctionsV2/types"
+	liqV2types "github.com/comdex-official/comdex/x/liquidationsV2/types"
+	vaulttypes "github.com/comdex-official/comdex/x/vault/types"
+)
+
+const c13AucDur = 300
+
+func (w *c13World) c13Bidder() sdk.AccAddress { return addrN(28) }
+
+func (w *c13World) c13AssetOfDenom(d string) uint64 {
+	for id, x := range w.denom {
+		if x == d {
+			return id
+		}
+	}
+	return 0
+}
+
+func (w *c13World) c13AucInit() {
+	a, ctx := w.a, w.ctx
+	for _, app := range w.apps {
+		a.AuctionKeeper.SetAuctionParams(ctx, auctiontypes.AuctionParams{AppId: app, AuctionDurationSeconds: c13AucDur, Buffer: sdk.MustNewDecFromStr("1.2"),
+			Cusp: sdk.MustNewDecFromStr("0.6"), Step: sdk.NewIntFromUint64(1), PriceFunctionType: 1, SurplusId: 1, DebtId: 2, DutchId: 3, BidDurationSeconds: 100})
+		a.NewliqKeeper.SetLiquidationWhiteListing(ctx, liqV2types.LiquidationWhiteListing{AppId: app, Initiator: true, IsDutchActivated: true,
+			DutchAuctionParam:  &liqV2types.DutchAuctionParam{Premium: sdk.MustNewDecFromStr("1.2"), Discount: sdk.MustNewDecFromStr("0.7"), DecrementFactor: sdk.NewInt(1)},
+			IsEnglishActivated: true, EnglishAuctionParam: &liqV2types.EnglishAuctionParam{DecrementFactor: sdk.NewInt(1)}, KeeeperIncentive: sdk.ZeroDec()})
+	}
+	a.NewaucKeeper.SetAuctionParams(ctx, auctionsV2types.AuctionParams{AuctionDurationSeconds: c13AucDur, Step: sdk.MustNewDecFromStr("0.1"),
+		WithdrawalFee: sdk.ZeroDec(), ClosingFee: sdk.ZeroDec(), MinUsdValueLeft: 100000, BidFactor: sdk.MustNewDecFromStr("0.01"),
+		LiquidationPenalty: sdk.MustNewDecFromStr("0.1"), AuctionBonus: sdk.ZeroDec()})
+	var coins sdk.Coins
+	for _, as := range w.assets {
+		coins = coins.Add(sdk.NewCoin(w.denom[as], sdk.NewInt(1000000000000000)))
+	}
+	fund(w.t, a, ctx, w.c13Bidder(), coins)
+}
+
+// coins arrive at the collector and are booked with UpdateCollector in the same unit
+func (w *c13World) c13FeeIn(app, asset uint64, amt sdk.Int) {
+	d := w.denom[asset]
+	res := w.c13Apply(func(ctx sdk.Context) error {
+		coin := sdk.NewCoins(sdk.NewCoin(d, amt))
+		if err := w.a.BankKeeper.MintCoins(ctx, "vaultV1", coin); err != nil {
+			return err
+		}
+		if err := w.a.BankKeeper.SendCoinsFromModuleToModule(ctx, "vaultV1", "collectorV1", coin); err != nil {
+			return err
+		}
+		return w.a.CollectorKeeper.UpdateCollector(ctx, app, asset, sdk.ZeroInt(), sdk.ZeroInt(), amt, sdk.ZeroInt())
+	})
+	w.tr.p("op vault feein %d %d %s %s", app, asset, amt, res)
+}
+
+func (w *c13World) c13After(t time.Time) bool { return w.ctx.BlockTime().After(t) }
+
+// emit the model ops of one real unit that closed several auctions: all but the last as "pre"
+func (w *c13World) c13EmitMulti(res string, ops []string) {
+	if res != "ok" || len(ops) == 0 {
+		w.tr.p("op noop %s", res)
+		return
+	}
+	for _, o := range ops[:len(ops)-1] {
+		w.tr.p("pre %s ok", o)
+	}
+	w.tr.p("op %s ok", ops[len(ops)-1])
+}
+
+func (w *c13World) c13V1Surplus(app, asset uint64) {
+	a := w.a
+	am, found := a.CollectorKeeper.GetAuctionMappingForApp(w.ctx, app, asset)
+	if !found {
+		w.tr.p("op noop ok")
+		return
+	}
+	ks, _ := a.EsmKeeper.GetKillSwitchData(w.ctx, app)
+	esm, _ := a.EsmKeeper.GetESMStatus(w.ctx, app)
+	if am.IsSurplusAuction && am.IsAuctionActive {
+		var ops []string
+		for _, au := range a.AuctionKeeper.GetSurplusAuctions(w.ctx, app) {
+			if w.c13After(au.EndTime) || w.c13After(au.BidEndTime) || esm.Status {
+				if au.AuctionStatus == auctiontypes.AuctionStartNoBids && !esm.Status {
+					continue // restart: no collector effect
+				}
+				ops = append(ops, fmt.Sprintf("v1sc %d %d %s %s %s", app, au.AssetId, au.SellToken.Amount, b2s(au.Bidder != nil), b2s(esm.Status)))
+			}
+		}
+		res := w.c13Apply(func(ctx sdk.Context) error { return a.AuctionKeeper.SurplusActivator(ctx, am, ks, esm.Status) })
+		w.c13EmitMulti(res, ops)
+		return
+	}
+	res := w.c13Apply(func(ctx sdk.Context) error { return a.AuctionKeeper.SurplusActivator(ctx, am, ks, esm.Status) })
+	w.tr.p("op v1ss %d %d %s", app, asset, res)
+}
+
+func (w *c13World) c13V1Debt(app, asset uint64) {
+	a := w.a
+	am, found := a.CollectorKeeper.GetAuctionMappingForApp(w.ctx, app, asset)
+	if !found {
+		w.tr.p("op noop ok")
+		return
+	}
+	ks, _ := a.EsmKeeper.GetKillSwitchData(w.ctx, app)
+	esm, _ := a.EsmKeeper.GetESMStatus(w.ctx, app)
+	if am.IsDebtAuction && am.IsAuctionActive {
+		var ops []string
+		for _, au := range a.AuctionKeeper.GetDebtAuctions(w.ctx, app) {
+			if w.c13After(au.EndTime) || w.c13After(au.BidEndTime) || esm.Status {
+				if au.AuctionStatus == auctiontypes.AuctionStartNoBids && !esm.Status {
+					continue
+				}
+				ops = append(ops, fmt.Sprintf("v1dc %d %d %s %s %s", app, au.AssetId, au.ExpectedUserToken.Amount,
+					b2s(au.AuctionStatus != auctiontypes.AuctionStartNoBids), b2s(esm.Status)))
+			}
+		}
+		res := w.c13Apply(func(ctx sdk.Context) error { return a.AuctionKeeper.DebtActivator(ctx, am, ks, esm.Status) })
+		w.c13EmitMulti(res, ops)
+		return
+	}
+	res := w.c13Apply(func(ctx sdk.Context) error { return a.AuctionKeeper.DebtActivator(ctx, am, ks, esm.Status) })
+	w.tr.p("op v1ds %d %d %s", app, asset, res)
+}
+
+// liquidationsV2.LiquidateForSurplusAndDebt, one mapping: the caller's guard, then CheckStats
+func (w *c13World) c13V2CheckStats(app, asset uint64) {
+	a := w.a
+	am, _ := a.CollectorKeeper.GetAuctionMappingForApp(w.ctx, app, asset)
+	ks, _ := a.EsmKeeper.GetKillSwitchData(w.ctx, app)
+	if am.IsAuctionActive || ks.BreakerEnable {
+		w.tr.p("op noop ok")
+		return
+	}
+	res := w.c13Apply(func(ctx sdk.Context) error { return a.NewliqKeeper.CheckStatsForSurplusAndDebt(ctx, app, asset) })
+	w.tr.p("op v2cs %d %d %s", app, asset, res)
+}
+
+// a bid of the outside bidder on some open surplus / debt / english auction (no collector effect)
+func (w *c13World) c13Bid(r *rng, k int) {
+	a := w.a
+	bidder := w.c13Bidder().String()
+	pct := int64(r.pickI(100, 102, 110, 150, 99))
+	var msg sdk.Msg
+	switch k {
+	case 0:
+		for _, app := range w.apps {
+			for _, au := range a.AuctionKeeper.GetSurplusAuctions(w.ctx, app) {
+				amt := au.Bid.Amount.MulRaw(pct).QuoRaw(100).AddRaw(int64(1 + r.intn(1000)))
+				msg = &auctiontypes.MsgPlaceSurplusBidRequest{AuctionId: au.AuctionId, Bidder: bidder, Amount: sdk.NewCoin(au.Bid.Denom, amt), AppId: app, AuctionMappingId: au.AuctionMappingId}
+			}
+		}
+	case 1:
+		for _, app := range w.apps {
+			for _, au := range a.AuctionKeeper.GetDebtAuctions(w.ctx, app) {
+				amt := au.ExpectedMintedToken.Amount.MulRaw(200 - pct).QuoRaw(100)
+				if !amt.IsPositive() {
+					amt = sdk.OneInt()
+				}
+				msg = &auctiontypes.MsgPlaceDebtBidRequest{AuctionId: au.AuctionId, Bidder: bidder, Bid: sdk.NewCoin(au.ExpectedMintedToken.Denom, amt),
+					ExpectedUserToken: au.ExpectedUserToken, AppId: app, AuctionMappingId: au.AuctionMappingId}
+			}
+		}
+	default:
+		for _, au := range a.NewaucKeeper.GetAuctions(w.ctx) {
+			if au.AuctionType {
+				continue
+			}
+			lv, _ := a.NewliqKeeper.GetLockedVault(w.ctx, au.AppId, au.LockedVaultId)
+			if lv.InitiatorType == "debt" {
+				amt := au.CollateralToken.Amount.MulRaw(200 - pct).QuoRaw(100)
+				if !amt.IsPositive() {
+					amt = sdk.OneInt()
+				}
+				msg = &auctionsV2types.MsgPlaceMarketBidRequest{AuctionId: au.AuctionId, Bidder: bidder, Amount: sdk.NewCoin(au.CollateralToken.Denom, amt)}
+			} else {
+				amt := au.DebtToken.Amount.MulRaw(pct).QuoRaw(100).AddRaw(int64(1 + r.intn(1000)))
+				msg = &auctionsV2types.MsgPlaceMarketBidRequest{AuctionId: au.AuctionId, Bidder: bidder, Amount: sdk.NewCoin(au.DebtToken.Denom, amt)}
+			}
+		}
+	}
+	if msg == nil {
+		w.tr.p("op noop ok")
+		return
+	}
+	class, _, _ := execMsg(a, w.ctx, msg)
+	w.tr.p("op noop %s", class)
+}
+
+// auctionsV2 AuctionIterator, one english auction whose time is up and that has a bid
+func (w *c13World) c13V2Close() {
+	a := w.a
+	for _, au := range a.NewaucKeeper.GetAuctions(w.ctx) {
+		if au.AuctionType || au.ActiveBiddingId == 0 || !w.c13After(au.EndTime) {
+			continue
+		}
+		lv, _ := a.NewliqKeeper.GetLockedVault(w.ctx, au.AppId, au.LockedVaultId)
+		auc := au
+		res := w.c13Apply(func(ctx sdk.Context) error { return a.NewaucKeeper.CloseEnglishAuction(ctx, auc) })
+		switch {
+		case res != "ok":
+			w.tr.p("op noop %s", res)
+		case lv.InitiatorType == "surplus":
+			w.tr.p("op v2sc %d %d %s ok", au.AppId, au.CollateralAssetId, au.CollateralToken.Amount)
+		case lv.InitiatorType == "debt":
+			w.tr.p("op v2dc %d %d %s %d %s ok", au.AppId, au.CollateralAssetId, au.CollateralToken.Amount, w.c13AssetOfDenom(au.DebtToken.Denom), au.DebtToken.Amount)
+		default:
+			w.tr.p("op noop ok")
+		}
+		return
+	}
+	w.tr.p("op noop ok")
+}
+
+// a generation-2 vault liquidation settled by one full dutch bid: vault create (a fee inflow of its
+// own), collateral price drop, LiquidateIndividualVault, bid of the whole remaining debt
+func (w *c13World) c13V2Liquidation(app, out uint64, collIn int64) {
+	a := w.a
+	ep := w.ep[[2]uint64{app, out}]
+	in := sdk.NewInt(collIn)
+	class := w.c13Vault("create", app, out, vaulttypes.NewMsgCreateRequest(w.vuser, app, ep, in, in)) // price 2: CR 200 %
+	w.c13Obs()
+	if class != "ok" {
+		w.tr.p("op noop ok")
+		return
+	}
+	vid := a.VaultKeeper.GetIDForVault(w.ctx)
+	setPrice(a, w.ctx, w.assets[0], 1200000, true) // CR 120 % < 150 %
+	before := a.NewaucKeeper.GetAuctionID(w.ctx)
+	res := w.c13Apply(func(ctx sdk.Context) error { return a.NewliqKeeper.LiquidateIndividualVault(ctx, vid, "", false) })
+	w.tr.p("op noop %s", res)
+	w.c13Obs()
+	after := a.NewaucKeeper.GetAuctionID(w.ctx)
+	if res != "ok" || after != before+1 {
+		setPrice(a, w.ctx, w.assets[0], 2000000, true)
+		w.tr.p("op noop ok")
+		return
+	}
+	au, _ := a.NewaucKeeper.GetAuction(w.ctx, after)
+	d := au.DebtToken.Denom
+	bal0 := bal(a, w.ctx, modAddr("collectorV1"), d)
+	class, _, _ = execMsg(a, w.ctx, &auctionsV2types.MsgPlaceMarketBidRequest{AuctionId: after, Bidder: w.c13Bidder().String(), Amount: au.DebtToken})
+	delta := bal(a, w.ctx, modAddr("collectorV1"), d).Sub(bal0)
+	_, err := a.NewaucKeeper.GetAuction(w.ctx, after)
+	setPrice(a, w.ctx, w.assets[0], 2000000, true)
+	if class == "ok" && err != nil { // the auction is closed: the penalty went to the collector
+		w.tr.p("op v2pen %d %d %d %s ok", au.AppId, au.CollateralAssetId, au.DebtAssetId, delta)
+	} else {
+		w.tr.p("op noop %s", class)
+	}
+}
 
 func (w *c13World) c13AuctionOp(r *rng, app, asset uint64) {
-	w.c13Advance(r.pickI(1, 3600, 86400))
+	if app == 7 {
+		app = w.apps[r.intn(len(w.apps))]
+	}
+	if asset == w.assets[0] {
+		asset = w.assets[1+r.intn(2)]
+	}
+	k := r.intn(20)
+	dt := r.pickI(1, 50, 101, 301, 700)
+	amt := sdk.NewInt(int64(1+r.intn(30)) * 1000000)
+	coll := int64(2+r.intn(40)) * 1000000
+	switch {
+	case k < 4:
+		w.c13FeeIn(app, asset, amt)
+	case k < 7:
+		w.c13V1Surplus(app, asset)
+	case k < 9:
+		w.c13V1Debt(app, asset)
+	case k < 12:
+		w.c13V2CheckStats(app, asset)
+	case k < 14:
+		w.c13Bid(r, r.intn(3))
+	case k < 15:
+		w.c13Scenario(r, app, asset)
+	case k < 17:
+		w.c13Advance(dt)
+		w.c13Obs()
+		w.c13V2Close()
+	case k < 18:
+		w.c13Advance(dt)
+		w.c13Obs()
+		if r.chance(50) {
+			w.c13V1Surplus(app, asset)
+		} else {
+			w.c13V1Debt(app, asset)
+		}
+	default:
+		w.c13V2Liquidation(app, asset, coll)
+	}
+}
+
+// a whole auction of one generation: flags, fee inflow (or a low book), start, bid, time, close
+func (w *c13World) c13Scenario(r *rng, app, asset uint64) {
+	surplus, gen2 := r.chance(50), r.chance(50)
+	w.c13SetFlags(app, asset, surplus, !surplus, false)
+	w.c13Obs()
+	if surplus {
+		w.c13FeeIn(app, asset, sdk.NewInt(13000000))
+	} else {
+		w.c13FeeIn(app, asset, sdk.NewInt(int64(1+r.intn(1000))*1000))
+	}
+	w.c13Obs()
+	start := func() {
+		switch {
+		case gen2:
+			w.c13V2CheckStats(app, asset)
+		case surplus:
+			w.c13V1Surplus(app, asset)
+		default:
+			w.c13V1Debt(app, asset)
+		}
+	}
+	start()
+	w.c13Obs()
+	switch {
+	case gen2:
+		w.c13Bid(r, 2)
+	case surplus:
+		w.c13Bid(r, 0)
+	default:
+		w.c13Bid(r, 1)
+	}
+	w.c13Obs()
+	w.c13Advance(r.pickI(101, 301, 50))
+	w.c13Obs()
+	if gen2 {
+		w.c13V2Close()
+	} else {
+		start() // the same activator closes an active auction
+	}
+}
+
+// ---- directed cases: the refutation witnesses of Properties/C13.v on the real keepers ---------
+
+// C13-F1 (repaired): generation-2 liquidation penalty; booked under the debt asset it is paid in
+func (w *c13World) c13DirectedPenalty() {
+	w.c13V2Liquidation(w.apps[0], w.assets[1], 20000000)
+	w.c13Obs()
+}
+
+// C13-F2 (surplus = true) / C13-F3 (surplus = false): generation-2 surplus / debt auction through the collector
+func (w *c13World) c13DirectedV2English(surplus bool) {
+	app, cmst, harbor := w.apps[0], w.assets[1], w.assets[2]
+	w.c13AddLookup(app, cmst, harbor, sdk.ZeroDec(), 10000000, 5000000, 2000000, 3000000)
+	w.c13Obs()
+	w.c13SetFlags(app, cmst, surplus, !surplus, false)
+	w.c13Obs()
+	if surplus {
+		w.c13FeeIn(app, cmst, sdk.NewInt(13000000))
+	} else {
+		w.c13FeeIn(app, cmst, sdk.NewInt(1000000))
+	}
+	w.c13Obs()
+	w.c13V2CheckStats(app, cmst)
+	w.c13Obs()
+	for _, au := range w.a.NewaucKeeper.GetAuctions(w.ctx) {
+		coin := sdk.NewCoin(au.DebtToken.Denom, sdk.NewInt(100))
+		if !surplus {
+			coin = au.CollateralToken
+		}
+		class, _, _ := execMsg(w.a, w.ctx, &auctionsV2types.MsgPlaceMarketBidRequest{AuctionId: au.AuctionId, Bidder: w.c13Bidder().String(), Amount: coin})
+		w.tr.p("op noop %s", class)
+		w.c13Obs()
+	}
+	w.c13Advance(c13AucDur + 1)
+	w.c13Obs()
+	w.c13V2Close()
+	w.c13Obs()
 }
